@@ -28,6 +28,7 @@ pub fn run(s: &mut Session, ctx: &Ctx) {
         let mut hue_sector = [0u64; 6];
         let mut chan = [[0u64; 256]; 3];
         let mut gray_level = [0u64; 256];
+        let mut gray_bin = [0u64; 256];
         let mut uniform_n = 0u64;
         for rng_kind in 0..6u8 {
             let log = Rc::new(RefCell::new(Vec::<u64>::new()));
@@ -62,6 +63,7 @@ pub fn run(s: &mut Session, ctx: &Ctx) {
                         s.check(q.r == q.g && q.g == q.b, "gray-achromatic", "strategies::UniformGray", inp, || show_color(&c));
                         if rng_kind == 0 {
                             gray_level[q.r as usize] += 1;
+                            gray_bin[((h.l * 256.0) as usize).min(255)] += 1;
                         }
                     }
                     "rgb" => {
@@ -126,7 +128,12 @@ pub fn run(s: &mut Session, ctx: &Ctx) {
             _ => {
                 let missing = gray_level.iter().filter(|c| **c == 0).count();
                 s.check(missing == 0 || uniform_n < 10_000, "every-gray-level-reachable", "strategies::UniformGray", || format!("{} draws", uniform_n), || format!("{} levels never hit", missing));
-                // levels 0 and 255 collect half a step each
+                // the gray level is the lightness: 256 equal-width lightness bins are equally frequent
+                for (v, c) in gray_bin.iter().enumerate() {
+                    s.check(within(*c, uniform_n, 1.0 / 256.0), "gray-lightness-uniform", "strategies::UniformGray", || format!("lightness bin {}/256", v), || format!("{} hits of {}", c, uniform_n));
+                }
+                // read as 8-bit values (round(255 l)), the end values 0 and 255 own half a step each - a
+                // property of rounding a uniform lightness, not of the strategy (DESIGN 10.8)
                 for (v, c) in gray_level.iter().enumerate() {
                     let p = if v == 0 || v == 255 { 0.5 / 255.0 } else { 1.0 / 255.0 };
                     s.check(within(*c, uniform_n, p), "gray-levels-equally-frequent", "strategies::UniformGray", || format!("level {}", v), || format!("{} hits of {}", c, uniform_n));
